@@ -32,6 +32,7 @@ RULE += " Added after the seeded rounds: " + 'A second call on the same loop / s
 RULE += " The provider's text replies are generated (blank, whitespace-only, error-looking, literal)."
 RULE += ' The judged call may be preceded by 1, 20 or 70 earlier calls on the same object (bounded internal logs). Stub exceptions are recognised by identity, not by message (they may carry none).'
 RULE += " Round 8: `init` - the loop / swarm is constructed with other limits (0, 4, 7) and the limits under test are assigned to its public attributes, before the first call or between two calls."
+RULE += " Round 10: the healing loop's generator is passed as the function, behind a signature-hiding pass-through wrapper (*args, **kwargs), as a functools.partial or as a callable object, by turns."
 EXHAUSTIVE_NOTE = {"quick": "heal: 5 limits x scripts of length 1..3 over 6 behaviours (1290); swarm: 5x5 limits x worker scripts length 1..2 over 4 behaviours (500); tools: 5 limits x round scripts length 1..2 over 5 round kinds x auto (300)",
                    "thorough": "same finite sub-domains, complete"}
 
@@ -186,7 +187,24 @@ def _heal(case, out):
             return getattr(real, name)
 
     init = case.get("init")
-    loop = ChaperoneLoop(generator=gen, chaperone=DistinctErrors() if len(script) % 2 == 0 else real, schema=schema, max_retries=mr if init is None else init, silent=True)
+    # the generator is handed over in the shapes callers use: the function itself, behind a pass-through decorator written without functools.wraps
+    # (visible signature (*args, **kwargs)), as a functools.partial, or as a callable object
+    form = (len(script) + (mr or 0)) % 4
+    if form == 1:
+        def passthrough(*args, **kwargs):
+            return gen(*args, **kwargs)
+        gen_form = passthrough
+    elif form == 2:
+        import functools
+        gen_form = functools.partial(gen)
+    elif form == 3:
+        class _Gen:
+            def __call__(self, *args):
+                return gen(*args)
+        gen_form = _Gen()
+    else:
+        gen_form = gen
+    loop = ChaperoneLoop(generator=gen_form, chaperone=DistinctErrors() if len(script) % 2 == 0 else real, schema=schema, max_retries=mr if init is None else init, silent=True)
     out.label("heal")
     if init is not None and not case.get("again"):
         loop.max_retries = mr
